@@ -638,8 +638,8 @@ class _ActionSubCommands(_SubParsersAction):
         """
         if parser._subparsers is not None:
             raise ValueError("Multiple levels of subcommands must be added in level order.")
-        if self.dest == name:
-            raise ValueError(f"A subcommand name can't be the same as the subcommands dest: '{name}'.")
+        if self.dest == name or self.dest in kwargs.get("aliases", ()):
+            raise ValueError(f"A subcommand name can't be the same as the subcommands dest: '{self.dest}'.")
 
         parser.prog = f"{self._prog_prefix} [options] {name}"
         parser.env_prefix = f"{self.env_prefix}{name}_"
